@@ -41,11 +41,14 @@ type ingU struct {
 
 // ingFrame: Ts is the source clock as it runs on, three 16-bit limbs (48 bits); what is written on
 // the wire is Ts modulo the width of the field (RTP timestamp 2^32, PES PTS/DTS 2^33, AvPacket the
-// whole value).  D = PTS - DTS in ticks (PS with a DTS field).
+// whole value).  D = PTS - DTS in ticks (PS with a DTS field).  G > 0 (PS, AAC): the frame is the G-th
+// ADTS frame behind the audio frame in whose PES it rides; it has no timestamp on the wire (Ts is
+// not written: the specification derives the implied time from the head frame).
 type ingFrame struct {
 	Trk string `json:"trk"`
 	Ts  []int  `json:"ts"`
 	D   int    `json:"d"`
+	G   int    `json:"g"`
 	Us  []ingU `json:"us"`
 }
 
@@ -74,6 +77,10 @@ type ingPs struct {
 	Join bool `json:"join"` // no pack header of its own: the PES follow the previous pack
 	Dts  bool `json:"dts"`  // the PES that carry a PTS carry a DTS too (PTS_DTS_flags = 3)
 	Cut  int  `json:"cut"`  // > 0: the pack goes into two RTP packets, cut after 1 + (Cut-1) mod (len-1) bytes
+	// Ride: this audio frame (AAC in ADTS, self-framing) rides in the PES of the previous audio frame: its ADTS
+	// frame follows that frame's in the same PES payload, under the one PES header and PTS; the payload of the
+	// whole group is cut into the head entry's M PES packets.  Every other field of a riding entry is unused.
+	Ride bool `json:"ride"`
 }
 
 type ingScenario struct {
@@ -109,6 +116,9 @@ func ingestDriver(env *Env) error {
 	return ReadScenarios(env.In, func(raw json.RawMessage) error {
 		var sc ingScenario
 		if err := json.Unmarshal(raw, &sc); err != nil {
+			return err
+		}
+		if err := ingCheckPsPlan(&sc); err != nil {
 			return err
 		}
 		runIngest(&sc, tw)
@@ -749,13 +759,71 @@ func ingRtsp(sc *ingScenario, g *logic.Group, stream string, sub *MemConn) (bad 
 	return
 }
 
+// ingCheckPsPlan: a malformed scenario is the generator's fault, never an observation of lal.  A riding entry
+// must be an AAC audio frame whose position behind its head (Frames[].G) is what the plan says.
+func ingCheckPsPlan(sc *ingScenario) error {
+	if sc.Path != "ps" {
+		for i := range sc.Frames {
+			if sc.Frames[i].G != 0 {
+				return fmt.Errorf("scenario %d: frame %d rides (g = %d) on path %s", sc.Sc, i+1, sc.Frames[i].G, sc.Path)
+			}
+		}
+		return nil
+	}
+	run := -1 // riders behind the last audio head, -1 = no head yet
+	for _, pf := range sc.Ps {
+		if pf.F < 1 || pf.F > len(sc.Frames) {
+			return fmt.Errorf("scenario %d: ps plan names frame %d", sc.Sc, pf.F)
+		}
+		f := &sc.Frames[pf.F-1]
+		if f.Trk != "a" {
+			if pf.Ride || f.G != 0 {
+				return fmt.Errorf("scenario %d: video frame %d rides", sc.Sc, pf.F)
+			}
+			continue
+		}
+		if !pf.Ride {
+			run = 0
+			if f.G != 0 {
+				return fmt.Errorf("scenario %d: frame %d has g = %d and a PES of its own", sc.Sc, pf.F, f.G)
+			}
+			continue
+		}
+		if run < 0 || sc.Ac != "aac" {
+			return fmt.Errorf("scenario %d: frame %d rides without an AAC head frame", sc.Sc, pf.F)
+		}
+		run++
+		if f.G != run {
+			return fmt.Errorf("scenario %d: frame %d is rider %d of its PES, g = %d", sc.Sc, pf.F, run, f.G)
+		}
+	}
+	return nil
+}
+
 // ingPsBytes writes the frames into program stream packs and slices them into RTP packets.
 func ingPsPackets(sc *ingScenario) [][]byte {
 	var packs [][]byte
 	var pts []uint64
 	var cs []int
 	var cuts []int
+	// the elementary-stream bytes behind the PES header(s) of an audio head frame: its own frame and its riders'
+	riders := map[int][]byte{}
+	head := -1
 	for _, pf := range sc.Ps {
+		f := &sc.Frames[pf.F-1]
+		if f.Trk != "a" {
+			continue
+		}
+		if !pf.Ride {
+			head = pf.F
+		} else if head > 0 {
+			riders[head] = append(riders[head], ingAdts(sc.Asc, ingFrameUnits(sc, f)[0])...)
+		}
+	}
+	for _, pf := range sc.Ps {
+		if pf.Ride {
+			continue
+		}
 		f := &sc.Frames[pf.F-1]
 		t := ingTs(f.Ts) & ingPsMask
 		dts := int64(-1)
@@ -790,6 +858,7 @@ func ingPsPackets(sc *ingScenario) [][]byte {
 			if sc.Ac == "aac" {
 				es = ingAdts(sc.Asc, es)
 			}
+			es = append(es, riders[pf.F]...)
 		}
 		m := pf.M
 		dtsLen := 0
